@@ -35,6 +35,11 @@ OP_CONSTRUCT = {
 EXTRACT = {"year": "year", "month": "month", "day": "day", "hour": "hour", "minute": "minute", "second": "second"}
 UNARY = {"length": {"char_length", "length"}, "tolower": {"lower"}, "toupper": {"upper"}, "ceiling": {"ceil", "ceiling"}, "floor": {"floor"},
          "round": {"round"}}
+TEXT_TYPES = {"String", "Text", "Unicode", "UnicodeText", "VARCHAR", "NVARCHAR", "CHAR"}
+NUMBER_TYPES = {"Integer", "BigInteger", "SmallInteger", "Numeric", "Float", "DECIMAL", "INTEGER", "NUMERIC", "FLOAT"}
+SQL_FUNCTION_RESULT = {"strpos": NUMBER_TYPES, "substr": TEXT_TYPES, "lower": TEXT_TYPES, "upper": TEXT_TYPES, "ltrim": TEXT_TYPES,
+                       "rtrim": TEXT_TYPES, "trim": TEXT_TYPES, "ceil": NUMBER_TYPES, "floor": NUMBER_TYPES, "round": NUMBER_TYPES,
+                       "length": NUMBER_TYPES, "concat": TEXT_TYPES}
 RESOLUTION_HANDLERS = {"visit_Identifier", "visit_Attribute", "visit_CollectionLambda", "visit_Compare", "__init__"}
 
 
@@ -169,6 +174,41 @@ def run(ctx: Ctx, env):
                     ctx.check(problem is None, "R4.function-meaning", f"{hn}|{f}/{n}", f"{f}: built as `{T.show(t)}`: {problem}", p.entry.get("where", ""),
                               witness.call_example(f) + ("" if O.ODATA_FUNCTION_RETURN.get(f) == "Boolean" else " eq 1"))
     ctx.floor("function handler paths", n_fn, 18)
+
+    # ---- (4b) result types of the backend's own SQL functions ------------------------------------------------------------------
+    # SQLAlchemy chooses operators from operand types (String + x -> ||, Integer + x -> +): a function class that declares the
+    # wrong result type changes what `substring(..) add 'x'` or `indexof(..) add 1` compile to
+    n_ft = 0
+    for q, ci in sorted(repo.classes.items()):
+        if not q.startswith("odata_query.sqlalchemy") or not any(b.endswith("GenericFunction") for b in repo.mro(q)[1:]):
+            continue
+        fam = SQL_FUNCTION_RESULT.get(ci.name)
+        if fam is None:
+            continue
+        tv = None
+        for st in ci.node.body:
+            if isinstance(st, ast.Assign) and len(st.targets) == 1 and isinstance(st.targets[0], ast.Name) and st.targets[0].id == "type":
+                tv = st.value
+        if tv is None:
+            continue
+        n_ft += 1
+        try:
+            folded = repo.fold(ci.module, tv.func if isinstance(tv, ast.Call) else tv)
+        except Exception:
+            folded = None
+        if folded is None and isinstance(tv, ast.Name) and tv.id in ci.module.assigns:
+            v0 = ci.module.assigns[tv.id][0]
+            try:
+                folded = repo.fold(ci.module, v0.func if isinstance(v0, ast.Call) else v0)
+            except Exception:
+                folded = None
+        tname = getattr(folded, "qual", "").rsplit(".", 1)[-1] if folded is not None else None
+        if tname is None:
+            raise AnalysisError(f"result type of SQL function class {ci.name} cannot be determined", ci.module.loc(tv))
+        ctx.check(tname in fam, "R4.sql-function-result-type", ci.name,
+                  f"{ci.name}(...) declares result type {tname}; {ci.name.upper()} yields {' or '.join(sorted(fam))}: operators applied to it are chosen for the wrong type",
+                  ci.module.loc(tv), "concat(substring(name, 1), 'x') eq 'ax'" if "String" in fam else "indexof(name, 'a') add 1 eq 2")
+    ctx.floor("SQL function classes with a typed result", n_ft, 9)
 
     # ---- (5) ORM / Core agreement ------------------------------------------------------------------------------------------
     names = set(repo.all_method_names(ORM)) | set(repo.all_method_names(CORE))
